@@ -72,48 +72,48 @@ Section Local3.
   (* a module that is neither RUNNING nor PAUSED gets nothing *)
   Theorem tell_copy_ineligible w r send sys sender topic data sub pill dref rr :
     get_mod w r = Some rr -> state_in (m_state rr) [MRunning; MPaused] = false ->
-    tell_copy w r send sys sender topic data sub pill dref = w.
+    tell_copy sc w r send sys sender topic data sub pill dref = w.
   Proof. intros H Hs. unfold tell_copy. rewrite H, Hs. reflexivity. Qed.
 
   (* an eligible module with room gets exactly one copy, appended at the TAIL of its pipe, carrying what the sender supplied *)
   Theorem tell_copy_appends w r send sys sender topic data sub pill dref rr q :
-    get_mod w r = Some rr -> state_in (m_state rr) [MRunning; MPaused] = true -> m_pipe rr = Some q -> length q < ps_pipe_cap ->
-    exists w3 g, tell_copy w r send sys sender topic data sub pill dref = upd_mod w3 r (mod_with_pipe (Some (q ++ [g]))) /\
+    get_mod w r = Some rr -> state_in (m_state rr) [MRunning; MPaused] = true -> m_pipe rr = Some q -> length q < (ps_pipe_cap sc) ->
+    exists w3 g, tell_copy sc w r send sys sender topic data sub pill dref = upd_mod w3 r (mod_with_pipe (Some (q ++ [g]))) /\
                  g_send g = send /\ g_system g = sys /\ g_sender g = sender /\ g_topic g = topic /\ g_data g = data /\
                  g_sub g = sub /\ g_pill g = pill.
   Proof.
     intros H Hs Hp Hl. unfold tell_copy. rewrite H, Hs.
     destruct (halloc _ OMsg _ 0) as [w2 o]. destruct (fresh w2) as [w3 gid]. rewrite Hp.
-    destruct (Nat.ltb_spec (length q) ps_pipe_cap); [|lia].
+    destruct (Nat.ltb_spec (length q) (ps_pipe_cap sc)); [|lia].
     eexists. eexists. split; [reflexivity|]. cbn. repeat split.
   Qed.
 
   (* ... and with a full pipe the copy is dropped (released), the pipe is unchanged *)
   Theorem tell_copy_full_drops w r send sys sender topic data sub pill dref rr q :
-    get_mod w r = Some rr -> state_in (m_state rr) [MRunning; MPaused] = true -> m_pipe rr = Some q -> ps_pipe_cap <= length q ->
-    exists w3 o, tell_copy w r send sys sender topic data sub pill dref = hunref w3 o.
+    get_mod w r = Some rr -> state_in (m_state rr) [MRunning; MPaused] = true -> m_pipe rr = Some q -> (ps_pipe_cap sc) <= length q ->
+    exists w3 o, tell_copy sc w r send sys sender topic data sub pill dref = hunref w3 o.
   Proof.
     intros H Hs Hp Hl. unfold tell_copy. rewrite H, Hs.
     destruct (halloc _ OMsg _ 0) as [w2 o]. destruct (fresh w2) as [w3 gid]. rewrite Hp.
-    destruct (Nat.ltb_spec (length q) ps_pipe_cap); [lia|]. eauto.
+    destruct (Nat.ltb_spec (length q) (ps_pipe_cap sc)); [lia|]. eauto.
   Qed.
 
   (* the pipe holds at least 8192 messages *)
-  Theorem pipe_capacity : (8192 <= cPIPE_CAP_MSGS)%N /\ ps_pipe_cap = N.to_nat cPIPE_CAP_MSGS.
-  Proof. split; [vm_compute; discriminate|reflexivity]. Qed.
+  Theorem pipe_capacity : (8192 <= cPIPE_CAP_MSGS)%N /\ (sc_pipecap sc = 0 -> (ps_pipe_cap sc) = N.to_nat cPIPE_CAP_MSGS).
+  Proof. split; [vm_compute; discriminate|intros H; unfold ps_pipe_cap; rewrite H; reflexivity]. Qed.
 
   (* a direct tell reaches the addressed module only *)
   Theorem deliver_direct w r sys sender topic data pill dref :
     deliver sc w (Some r) sys sender topic data pill dref =
-    tell_copy (fst (fresh w)) r (snd (fresh w)) sys sender topic data None pill dref.
+    tell_copy sc (fst (fresh w)) r (snd (fresh w)) sys sender topic data None pill dref.
   Proof. unfold deliver. destruct (fresh w). reflexivity. Qed.
 
   (* a topic-less broadcast walks the whole table: one tell_copy per module of the table, in table order *)
   Theorem deliver_broadcast w sys sender data pill dref :
     deliver sc w None sys sender None data pill dref =
-    fold_left (fun w r => tell_copy w r (snd (fresh w)) sys sender None data None pill dref) [] (fst (fresh w)) \/
+    fold_left (fun w r => tell_copy sc w r (snd (fresh w)) sys sender None data None pill dref) [] (fst (fresh w)) \/
     deliver sc w None sys sender None data pill dref =
-    fold_left (fun w' r => tell_copy w' r (snd (fresh w)) sys sender None data None pill dref) (table_mods (fst (fresh w))) (fst (fresh w)).
+    fold_left (fun w' r => tell_copy sc w' r (snd (fresh w)) sys sender None data None pill dref) (table_mods (fst (fresh w))) (fst (fresh w)).
   Proof. right. unfold deliver. destruct (fresh w). reflexivity. Qed.
 
   (* ================= C04 / C20: the ref-counted heap ================= *)
